@@ -398,6 +398,35 @@ def noncanonical_program(rng):
     return p.finish()
 
 
+def removal_programs(rng):
+    """every kind of option present is removed in turn (show after each removal), for option mixes whose length sits at
+    every residue mod 4: a size bookkeeping that treats the single-byte options NOP / END like the others on removal,
+    or forgets the length octet of a data-less one, changes the padded header size only for some residues"""
+    out = []
+    mixes = [["noop", "noop", "mss"], ["noop", "noop", "timestamp"], ["noop", "mss"], ["noop", "winscale"],
+             ["noop", "noop", "noop", "sack_permitted"], ["mss", "sack_permitted", "timestamp", "noop", "winscale"],
+             ["noop", "raw0"], ["raw0", "noop", "noop"], ["raw9", "noop", "mss"], ["noop", "raw9", "raw9"]]
+    for mix in [rng.choice(mixes) for _ in range(3)] + [mixes[rng.randrange(len(mixes))]]:
+        p = TcpProg(rng)
+        for m in mix:
+            if m == "noop": p.add_raw(1, 0)
+            elif m == "mss": p.set("mss", u16(rng)); p.opts.append((2, 2))
+            elif m == "winscale": p.set("winscale", rng.randrange(15)); p.opts.append((3, 1))
+            elif m == "sack_permitted": p.set("sack_permitted"); p.opts.append((4, 0))
+            elif m == "timestamp": p.set("timestamp", u32(rng), u32(rng)); p.opts.append((8, 8))
+            elif m == "raw0": p.add_raw(34, 0)
+            elif m == "raw9": p.add_raw(rng.choice([253, 254]), 9)
+        p.ops.append(f"push RawPDU {hexs(rb(rng, rng.choice([1, 4, 5, 20])))}")
+        p.ops.append("show")
+        order = [k for k, _ in p.opts]
+        rng.shuffle(order)
+        for k in order[:rng.randrange(1, len(order) + 1)]:
+            p.remove(k)
+            p.ops.append("show")
+        out += p.ops
+    return out
+
+
 def over40_programs(rng):
     """the option area is limited to 40 bytes by the 4-bit data offset: known finding KF-C02-WTcp-1 (reproduced on every run)"""
     out = []
@@ -464,6 +493,8 @@ def gen_build(rng, n):
             ops += noncanonical_program(rng)
         elif k < 0.93:
             ops += over40_programs(rng)
+        elif k < 0.97:
+            ops += removal_programs(rng)
         else:
             ops += udp_program(rng, parent=(rng.choice(parents) if parents and rng.random() < 0.4 else None))
     return ops
